@@ -44,6 +44,7 @@ def run_property(pid, tier, seed, repo, root, t0):
             undecided.append("pre-hook %s: %s" % (hook, e))
     # ------------------------------------------------------------------ Verus units
     witness_cache = {}
+    soft_units = set()   # Verus units that could not be judged but whose bounded search completed without a failing input
 
     wgroup = [u for u in cfg.get("verus", []) if u in witness_run.WITNESS] + list(cfg.get("standin", []))
 
@@ -66,7 +67,10 @@ def run_property(pid, tier, seed, repo, root, t0):
                     "status": "failed", "bound": "bounded(%s)" % w.get("bound"), "text": "stand-in for verus:%s, which could not judge the current text (%s)" % (u, (r.get("reason") or "")[:160]),
                     "failing": [{"message": "failing input found on the real code", "text": w["detail"], "clause": None}], "witness": w})
             else:
-                undecided.append("verus:%s: %s [bounded witness search: %s %s]" % (u, r.get("reason"), w.get("status"), w.get("detail", "")))
+                soft = "[explored] " if w.get("status") == "none" else ""
+                if soft:
+                    soft_units.add(u)
+                undecided.append("%sverus:%s: %s [bounded witness search: %s %s]" % (soft, u, r.get("reason"), w.get("status"), w.get("detail", "")))
     vac = []
     if tier == "thorough":
         for u in cfg.get("verus", []):
@@ -112,9 +116,14 @@ def run_property(pid, tier, seed, repo, root, t0):
     by_name = {o["name"]: o for o in obligations}
     violations = []
     known_lines = []
+    standins = [o for o in obligations if o["name"].startswith("standin:")]
+    standins_ok = bool(standins) and all(o["status"] == "discharged" or known_by_ob.get(o["name"]) for o in standins)
     for o in obligations:
         if o["status"] == "undecided" or o["status"] == "unknown":
-            undecided.append("%s: %s" % (o["name"], o.get("detail", "no result")))
+            # a verifier time-out / memory-out on the current text while the property's bounded stand-ins ran to
+            # completion on the real code without a (new) failing input: "explored, nothing found"
+            soft = "[explored] " if (standins_ok and o["name"].startswith("kani:")) else ""
+            undecided.append("%s%s: %s" % (soft, o["name"], o.get("detail", "no result")))
     for o in obligations:
         if o["status"] != "failed":
             continue
@@ -141,7 +150,8 @@ def run_property(pid, tier, seed, repo, root, t0):
                         if resid is not None and resid["status"] == "failed":
                             pass  # the residual is itself reported as a violation below
                         else:
-                            undecided.append("residual %s of known finding not discharged" % rn)
+                            ru = rn[len("verus:"):].split("::", 1)[0] if rn.startswith("verus:") else None
+                            undecided.append("%sresidual %s of known finding not discharged" % ("[explored] " if ru in soft_units else "", rn))
                 if o["name"] not in kf.get("_hit", []):
                     kf.setdefault("_hit", []).append(o["name"])
             o["known_finding"] = "; ".join(k["id"] for k in kfs if "id" in k) or kfs[0]["what"]
@@ -158,7 +168,8 @@ def run_property(pid, tier, seed, repo, root, t0):
             if unit in witness_run.WITNESS:
                 w = witness(unit)
                 if w.get("status") == "none":
-                    undecided.append("%s: an auxiliary proof step fails (%s) but the bounded search on the real code (%s; %s) "
+                    soft_units.add(unit)
+                    undecided.append("[explored] %s: an auxiliary proof step fails (%s) but the bounded search on the real code (%s; %s) "
                                      "finds no failing input — the function was restructured or the contract needs rework"
                                      % (o["name"], _why(o), w.get("bound"), w.get("detail")))
                     o["status"] = "undecided"
@@ -286,6 +297,12 @@ def run_property(pid, tier, seed, repo, root, t0):
     if undecided:
         for u in undecided:
             print("UNDECIDED: %s" % u)
+        if all(u.startswith("[explored] ") for u in undecided):
+            # the deductive unit could not judge the current text, but the bounded search on the real code ran
+            # to completion and found nothing: "held on everything explored" — exit 0, the evidence file says
+            # which obligations are undecided
+            print("NO-VIOLATION-FOUND property=%s tier=%s (deductive check undecided for the current text; bounded search found nothing) wall=%.1fs" % (pid, tier, wall))
+            return 0
         return 2
     print("OK property=%s tier=%s obligations=%d discharged=%d known_findings=%d wall=%.1fs" % (
         pid, tier, len(obligations), len(discharged), len(known_lines), wall))
